@@ -10,6 +10,7 @@ import (
 )
 
 type GenOpts struct {
+	RefMixP   int  // percent of log-mode cases shaped as: positive log_addr argument filter + reference filters
 	Filters   bool // generate filters (C12)
 	LogAddrP  int  // percent of log-mode cases with a log_addr filter
 	OddP      int  // percent of cases from the malformed / out-of-reading stream
@@ -485,7 +486,8 @@ func genFilterFor(r *lib.RNG, c *GCase, vals []exVal, kind string, odd bool) Flt
 			f.Args = append(f.Args, hexArg(r, v))
 		}
 		if r.Chance(1, 4) && (f.Op == "contains" || f.Op == "!contains") { // reference filter
-			f.RefIG, f.RefTable, f.RefCol = "ref_ig", fmt.Sprintf("ref_t%d", len(c.DB)), "c"
+			f.RefTable, f.RefCol = fmt.Sprintf("ref_t%d", len(c.DB)), "c"
+			f.RefIG = "ig_" + f.RefTable
 			if r.Bool() {
 				f.Args = nil
 			}
@@ -645,6 +647,183 @@ func genFilters(r *lib.RNG, c *GCase, o GenOpts) {
 	if n == 0 {
 		c.Kind += "-nofilter"
 	}
+	if c.Decl.Mode() == "log" && r.Intn(100) < o.RefMixP {
+		refMix(r, c)
+	}
+}
+
+// refMix reshapes a log-mode case: a positive log_addr filter whose literal
+// arguments cover only SOME of the emitting contracts, and next to it one or
+// two reference filters (pure: no literal arguments; sometimes with literal
+// arguments too) on event inputs / block fields, whose referenced tables hold
+// values of logs emitted by contracts OUTSIDE the log_addr arguments.  Under
+// "or" such a log is accepted through the reference filter alone, so the
+// address restriction must not be sent; under "and" it may.  Neighbouring
+// shapes: a reference filter on log_addr itself, a filter on an input that has
+// no column (never evaluated).
+func refMix(r *lib.RNG, c *GCase) {
+	d := &c.Decl
+	strip := func(k string) string {
+		for _, suf := range []string{"-nofilter", "-odd"} {
+			k = strings.ReplaceAll(k, suf, "")
+		}
+		return k
+	}
+	c.Kind = strip(c.Kind) + "-refmix"
+	c.DB, c.Comment, c.Expect = nil, "", ""
+	for i := range d.Inputs {
+		d.Inputs[i].Flt = Flt{}
+	}
+	for i := range d.Block {
+		d.Block[i].Flt = Flt{}
+	}
+	addBD := func(name, col string) int {
+		for i, b := range d.Block {
+			if b.Name == name && b.Column == col {
+				return i
+			}
+		}
+		d.Block = append(d.Block, BD{Name: name, Column: col})
+		d.TableCols = append(d.TableCols, col)
+		return len(d.Block) - 1
+	}
+	la := -1
+	for i, b := range d.Block {
+		if b.Name == "log_addr" {
+			la = i
+		}
+	}
+	if la < 0 {
+		la = addBD("log_addr", "log_addr")
+	}
+	// the emitting contracts
+	var addrs [][]byte
+	seen := map[string]bool{}
+	each := func(f func(b *Block, t *Tx, l *Log)) {
+		for bi := range c.Blocks {
+			for ti := range c.Blocks[bi].Txs {
+				t := &c.Blocks[bi].Txs[ti]
+				for li := range t.Logs {
+					if t.Logs[li].Match {
+						f(&c.Blocks[bi], t, &t.Logs[li])
+					}
+				}
+			}
+		}
+	}
+	each(func(b *Block, t *Tx, l *Log) {
+		if !seen[string(l.Addr)] {
+			seen[string(l.Addr)] = true
+			addrs = append(addrs, l.Addr)
+		}
+	})
+	shuffle(r, addrs)
+	inside := map[string]bool{}
+	fl := Flt{Op: lib.Pick(r, []string{"contains", "eq"})}
+	nin := 1
+	if len(addrs) > 2 {
+		nin = r.Range(1, len(addrs)-1)
+	}
+	for i := 0; i < nin && i < len(addrs); i++ {
+		inside[string(addrs[i])] = true
+		fl.Args = append(fl.Args, hexArg(r, addrs[i]))
+	}
+	if len(fl.Args) == 0 {
+		fl.Args = []string{hexArg(r, genAddr(r))}
+	}
+	d.Block[la].Flt = fl
+
+	// reference filters
+	type target struct {
+		input int
+		bd    int
+	}
+	var targets []target
+	for i, in := range d.Inputs {
+		if in.Selected() && kindOfInput(parseType(in.Type)) == "bytes" {
+			targets = append(targets, target{input: i, bd: -1})
+		}
+	}
+	for i, b := range d.Block {
+		if i != la && b.Name != "log_addr" && kindOfField(b.Name) == "bytes" {
+			targets = append(targets, target{input: -1, bd: i})
+		}
+	}
+	if len(targets) == 0 || r.Chance(1, 4) {
+		name := lib.Pick(r, []string{"tx_signer", "tx_hash", "tx_to"})
+		targets = append(targets, target{input: -1, bd: addBD(name, name)})
+	}
+	if r.Chance(1, 5) { // a reference filter on log_addr itself, as a second entry
+		targets = append(targets, target{input: -1, bd: addBD("log_addr", "log_addr_ref")})
+	}
+	shuffle(r, targets)
+	nref := r.Range(1, 2)
+	if nref > len(targets) {
+		nref = len(targets)
+	}
+	for k := 0; k < nref; k++ {
+		tg := targets[k]
+		f := Flt{Op: "contains", RefTable: fmt.Sprintf("ref_t%d", len(c.DB)), RefCol: "c"}
+		f.RefIG = "ig_" + f.RefTable
+		if r.Chance(1, 6) {
+			f.Op = "!contains"
+		}
+		tbl := RefTable{Table: f.RefTable, Column: f.RefCol}
+		var outside, all [][]byte
+		each(func(b *Block, t *Tx, l *Log) {
+			var vs []exVal
+			if tg.input >= 0 {
+				ty := parseType(d.Inputs[tg.input].Type)
+				if ty.Arr {
+					for _, e := range l.Vals[tg.input].Elems {
+						vs = append(vs, exInput(ty.elem(), e))
+					}
+				} else {
+					vs = append(vs, exInput(ty, l.Vals[tg.input]))
+				}
+			} else {
+				vs = append(vs, exField(d.Block[tg.bd].Name, c, item{b: b, t: t, l: l}, -1))
+			}
+			for _, v := range vs {
+				if v.B == nil {
+					continue
+				}
+				all = append(all, v.B)
+				if !inside[string(l.Addr)] {
+					outside = append(outside, v.B)
+				}
+			}
+		})
+		if len(outside) > 0 {
+			tbl.Vals = append(tbl.Vals, append([]byte{}, lib.Pick(r, outside)...))
+		}
+		for _, v := range all {
+			if r.Chance(1, 3) {
+				tbl.Vals = append(tbl.Vals, append([]byte{}, v...))
+			}
+		}
+		if r.Chance(1, 3) {
+			tbl.Vals = append(tbl.Vals, r.Bytes(20))
+		}
+		if r.Chance(1, 5) && len(all) > 0 { // the neighbouring shape: literal arguments as well (ignored by contains)
+			f.Args = []string{hexArg(r, lib.Pick(r, all))}
+		}
+		c.DB = append(c.DB, tbl)
+		if tg.input >= 0 {
+			d.Inputs[tg.input].Flt = f
+		} else {
+			d.Block[tg.bd].Flt = f
+		}
+	}
+	if r.Chance(1, 5) { // a filter on an input that has no column: not part of the row, never evaluated
+		for i := range d.Inputs {
+			if !d.Inputs[i].Selected() {
+				d.Inputs[i].Flt = Flt{Op: "eq", Args: []string{"0x01"}}
+				break
+			}
+		}
+	}
+	d.Agg = lib.Pick(r, []string{"", "or", "or", "Or", "and", ""})
 }
 
 // Size of a case, for choosing the smallest failing one
